@@ -51,7 +51,12 @@ def main():
     ctx = vlib_ctx = Ctx(pid, tier, seed, rng, known, model_ok)
     # 3+4. correspondence and search (property specific)
     t1 = time.time()
-    mod.run(ctx)
+    harness_exc = None
+    try:
+        mod.run(ctx)
+    except Exception:          # the implementation's output could not even be interpreted (never happens on the unchanged tree)
+        import traceback
+        harness_exc = traceback.format_exc()[-3000:]
     t2 = time.time()
 
     # 5. verdict
@@ -59,6 +64,10 @@ def main():
     for f in ctx.failures:       # concrete failing inputs on the implementation
         violations.append({"kind": "failing-input", **f})
     new_disagreements = ctx.disagreements
+    if not violations and harness_exc:
+        violations.append({"kind": "uninterpretable-output", "no_failing_input_found": True,
+                           "what": "the check could not interpret what the implementation returned (it raised or returned malformed output); traceback attached", "traceback": harness_exc,
+                           "disagreements": new_disagreements[:3]})
     if not violations:
         if not proofs_ok:
             violations.append({"kind": "proof-broken", "no_failing_input_found": True,
